@@ -333,6 +333,10 @@ class Ctx:
         nfail = 0
         t_start = time.time()
         corpus = load_corpus(self.prop_id, name)
+        workers = int(os.environ.get("VERIF_WORKERS", "14" if self.tier == "thorough" else "1"))
+        if workers > 1 and n_cases >= 64:
+            return self._explore_parallel(name, gen, run, n_cases, nontrivial, shrink_key, max_fail, time_budget,
+                                          corpus, workers)
         for idx in range(-len(corpus), n_cases):
             if time_budget is not None and time.time() - t_start > time_budget and idx >= 0:
                 self.count(f"{name}:time-budget-stop")
@@ -366,11 +370,87 @@ class Ctx:
             if nfail >= max_fail:
                 break
 
+    def _explore_parallel(self, name, gen, run, n_cases, nontrivial, shrink_key, max_fail, time_budget, corpus,
+                          workers):
+        """Thorough tier: generated cases are run by forked workers (each opens its own driver per case);
+        corpus cases and shrinking stay in the parent."""
+        import multiprocessing as mp
+        t_start = time.time()
+        nfail = 0
+
+        def handle(case, fail):
+            nonlocal nfail
+            self.evaluations += 1
+            self.validated += 1
+            self.count(name)
+            if nontrivial is None or nontrivial(case):
+                self.mark_nontrivial(case.get(shrink_key, case))
+            if fail is None:
+                self.sample(case)
+                return
+            if fail.key is not None and fail.key in self.open_keys:
+                self.known_hits[fail.key] = self.known_hits.get(fail.key, 0) + 1
+                return
+            if nfail >= max_fail:
+                return
+            small = shrink(case, run, fail, shrink_key)
+            self.failures.append((run(small) or fail, small))
+            nfail += 1
+
+        for case in corpus:
+            self.count(f"{name}:corpus")
+            handle(case, run(case))
+        _PAR.update(ctx=self, name=name, gen=gen, run=run)
+        pool = mp.get_context("fork").Pool(workers, initializer=_par_init)
+        try:
+            for idx, case, fj in pool.imap_unordered(_par_worker, range(n_cases), chunksize=4):
+                if fj == "infra":
+                    raise Infra(f"worker failed on case {idx}: {case}")
+                fail = None if fj is None else Failure(fj["kind"], fj["what"], fj.get("detail"), fj.get("key"))
+                handle(case, fail)
+                if nfail >= max_fail:
+                    break
+                if time_budget is not None and time.time() - t_start > time_budget:
+                    self.count(f"{name}:time-budget-stop")
+                    break
+        finally:
+            pool.terminate()
+            pool.join()
+
     def fail(self, failure, case):
         if failure.key is not None and failure.key in self.open_keys:
             self.known_hits[failure.key] = self.known_hits.get(failure.key, 0) + 1
             return
         self.failures.append((failure, case))
+
+
+_PAR = {}
+
+
+def _par_init():
+    """Forked workers must not share the parent's persistent driver processes."""
+    for name, mod in list(sys.modules.items()):
+        if name.startswith("props.") or name in ("archlib",):
+            cache = getattr(mod, "_DRV", None)
+            if isinstance(cache, list):
+                for i in range(len(cache)):
+                    cache[i] = None
+            elif isinstance(cache, dict):
+                cache.clear()
+
+
+def _par_worker(idx):
+    ctx, name = _PAR["ctx"], _PAR["name"]
+    case = _PAR["gen"](ctx.rng(name, idx))
+    case["stratum"] = name
+    case["case_index"] = idx
+    try:
+        f = _PAR["run"](case)
+    except Infra as e:
+        return idx, str(e), "infra"
+    except Exception as e:  # pylint: disable=broad-except
+        return idx, f"{type(e).__name__}: {e}\n{traceback.format_exc()[-1500:]}", "infra"
+    return idx, case, (None if f is None else f.to_json())
 
 
 def load_corpus(prop_id, stratum):
